@@ -176,6 +176,7 @@ Definition spec_ok (c : tcase) : bool :=
   && snapshot_ok [] (ns_events evs)
   && expand_known_ok [] evs
   && dsctx_ok [] (ns_events evs)
+  && compact_fun_ok [] (ns_events evs)
   && match last_dump (o_outs c) None with
      | Some t => forallb (spec_event t) evs
      | None => true
@@ -256,3 +257,5 @@ Definition wit_crash_min : list hop := [HCrashWrite true None (s2l "a") [ent0 "n
 Definition x_pub : str := s2l "http://pub.example/later#".
 Definition wit_dsctx : list hop :=
   [HNs (NDsCtx [x_pub]); HNs NJsonLD; HNs NCtxAll; HNs (NAssert x_pub); HNs (NDsCtx [x_pub]); HDump].
+
+Definition x_hash_slash : str := s2l "http://example.com/doc#section/1".
